@@ -18,7 +18,7 @@ from __future__ import annotations
 
 import ast
 
-from ..core import AnalysisError, assignments, call_name, dotted, names_in, short, walk_no_nested
+from ..core import AnalysisError, assignments, call_name, dotted, free_names, names_in, short, walk_no_nested
 from ..util import calls_named, has_call, kwarg, norm
 
 IO = "molli.chem.io"
@@ -146,19 +146,27 @@ def _reader_table(chk, rf):
                 out.add(x)
             for v in asg.get(x, []):
                 if isinstance(v, ast.AST):
-                    todo.extend(names_in(v) - {x} if x in names else names_in(v))
+                    todo.extend(free_names(v) - {x} if x in names else free_names(v))
                 elif isinstance(v, tuple) and isinstance(v[1], ast.AST) and v[0] in ("iter",):
-                    todo.extend(names_in(v[1]))
+                    todo.extend(free_names(v[1]))
         return out
 
+    from ..canon import Env
+
+    env = Env(rf.node)
+
+    def X(e):
+        """ctor argument with naming locals dissolved (the unpacked names stay)"""
+        return env.expand(e, keep=set(names))
+
     if ctor.args:
-        a0 = ctor.args[0]
-        for nm in names_in(a0):
+        a0 = X(ctor.args[0])
+        for nm in free_names(a0):
             for o in origin(nm):
                 sinks[o].append(("atoms", "positional"))
     for kw in ctor.keywords:
         chk.require(kw.arg is not None, f"{rf.key}: **kwargs in cls(...) - unknown idiom")
-        v = kw.value
+        v = X(kw.value)
         data, dims, dtype = None, None, None
         fb = [c for c in ast.walk(v) if isinstance(c, ast.Call) and (call_name(c) or "").endswith("frombuffer")]
         if fb:
@@ -182,7 +190,7 @@ def _reader_table(chk, rf):
             for o in origin(v.id) or {v.id}:
                 sinks.setdefault(o, []).append((kw.arg, "direct"))
         else:
-            for nm in names_in(v):
+            for nm in free_names(v):
                 for o in origin(nm):
                     sinks[o].append((kw.arg, "derived"))
     # bond loop
@@ -334,6 +342,21 @@ def r2_subschemas(chk, kind, ver, wf, rf, wt, key0):
     m = wf.module
     obj = wf.params()[0]
     rscopes = _scopes(prog, rf)
+    from ..canon import Env
+
+    wenv = Env(wf.node)
+    renvs = {id(node): Env(node) for node, _ in rscopes}
+
+    def WX(e):
+        return wenv.expand(e)
+
+    def RX(e):
+        for env in renvs.values():
+            e2 = env.expand(e)
+            if ast.dump(e2) != ast.dump(e):
+                return e2
+        return e
+
     atoms = [w for w in wt if w["field"] == "atoms"]
     bonds = [w for w in wt if w["field"] == "bonds"]
     chk.require(len(atoms) == 1 and len(bonds) == 1 and atoms[0]["comp"] is not None and bonds[0]["comp"] is not None,
@@ -341,7 +364,7 @@ def r2_subschemas(chk, kind, ver, wf, rf, wt, key0):
     # atoms writer: a.as_tuple(S)
     at = [c for c in ast.walk(atoms[0]["comp"].elt) if isinstance(c, ast.Call) and isinstance(c.func, ast.Attribute) and c.func.attr == "as_tuple"]
     chk.require(len(at) == 1 and at[0].args, f"{wf.key}: atom element is not a.as_tuple(SCHEMA)")
-    wS, wk = _schema_of(chk, m, at[0].args[0])
+    wS, wk = _schema_of(chk, m, WX(at[0].args[0]))
     # atoms reader: Atom(**dict(zip(S, a)))
     ra_all = _find_calls(rscopes, lambda c: call_name(c) == "Atom")
     chk.require(len(ra_all) == 1, f"{rf.key}: expected one Atom(...) construction (directly or in a helper it calls), found {len(ra_all)}")
@@ -349,9 +372,9 @@ def r2_subschemas(chk, kind, ver, wf, rf, wt, key0):
     rbind = ra_all[0][1]
     z = [c for c in ast.walk(ra[0]) if isinstance(c, ast.Call) and call_name(c) == "zip"]
     chk.require(len(z) == 1 and len(z[0].args) == 2, f"{rf.key}: Atom(**dict(zip(SCHEMA, a))) idiom not found")
-    r_schema_expr = _subst(z[0].args[0], rbind)
+    r_schema_expr = _subst(RX(z[0].args[0]), rbind)
     rS, rk = _schema_of(chk, m, r_schema_expr)
-    same = (wS, wk) == (rS, rk) or (prog.const_eval(m, at[0].args[0]) == prog.const_eval(m, r_schema_expr))
+    same = (wS, wk) == (rS, rk) or (prog.const_eval(m, WX(at[0].args[0])) == prog.const_eval(m, r_schema_expr))
     chk.decide(same and wk == 0, "C01.R2", f"{key0}:atom-schema", rf.where(ra[0]), f"writer and reader both use {wS}",
                f"atoms are written with {wS}[{wk}:] and read with {rS}[{rk}:]")
     want_schema = f"ATOM_SCHEMA_V{ver}"
@@ -382,7 +405,7 @@ def r2_subschemas(chk, kind, ver, wf, rf, wt, key0):
                f"{idmap} is not the map atom -> index in {obj}.atoms")
     bt = [c for c in ast.walk(elt.right) if isinstance(c, ast.Call) and isinstance(c.func, ast.Attribute) and c.func.attr == "as_tuple"]
     chk.require(len(bt) == 1 and bt[0].args, f"{wf.key}: bond tail is not b.as_tuple(SCHEMA[k:])")
-    wbS, wbk = _schema_of(chk, m, bt[0].args[0])
+    wbS, wbk = _schema_of(chk, m, WX(bt[0].args[0]))
     # reader: res.connect(*b[:k], **dict(zip(S[k:], b[k:])))
     cn_all = _find_calls(rscopes, lambda c: isinstance(c.func, ast.Attribute) and c.func.attr == "connect")
     chk.require(len(cn_all) == 1, f"{rf.key}: expected one connect(...) call (directly or in a helper it calls)")
@@ -393,7 +416,7 @@ def r2_subschemas(chk, kind, ver, wf, rf, wt, key0):
     k1 = sl.upper.value if isinstance(sl, ast.Slice) and sl.lower is None and isinstance(sl.upper, ast.Constant) else None
     z = [x for x in ast.walk(c) if isinstance(x, ast.Call) and call_name(x) == "zip"]
     chk.require(len(z) == 1 and len(z[0].args) == 2, f"{rf.key}: connect(**dict(zip(S[k:], b[k:]))) idiom not found")
-    zs = z[0].args[0]
+    zs = RX(z[0].args[0])
     if isinstance(zs, ast.Subscript):
         zs = ast.Subscript(value=_subst(zs.value, cbind), slice=zs.slice, ctx=ast.Load())
     else:
@@ -458,14 +481,34 @@ def r5_library(chk):
         init = prog.method(ci, "__init__")
         chk.require(init is not None and init.cls == ci, f"{cname}.__init__ vanished")
         chk.analysed(init)
+        def binds(body, path):
+            """values stored into `path` anywhere in body (tuple unpacking of a tuple display is element-wise)"""
+            out = []
+            for b in body:
+                for s in ast.walk(b):
+                    if not isinstance(s, ast.Assign):
+                        continue
+                    for t in s.targets:
+                        if norm(t) == path:
+                            out.append(norm(s.value))
+                        elif isinstance(t, ast.Tuple) and isinstance(s.value, ast.Tuple) and len(t.elts) == len(s.value.elts):
+                            for te, ve in zip(t.elts, s.value.elts):
+                                if norm(te) == path:
+                                    out.append(norm(ve))
+                        elif isinstance(t, ast.Tuple) and any(norm(te) == path for te in t.elts):
+                            out.append(f"<unpacked from {norm(s.value)}>")
+            return out
+
         branches = []
         for s in ast.walk(init.node):
-            if isinstance(s, ast.If) and isinstance(s.test, ast.Compare) and norm(s.test.left) == "_v" and isinstance(s.test.comparators[0], ast.Constant):
-                branches.append((s.test.comparators[0].value, s.body))
-        chk.require(len(branches) >= 2, f"{cname}.__init__: version branches not found")
-        for ver, body in branches:
-            ser = [norm(s.value) for b in body for s in ast.walk(b) if isinstance(s, ast.Assign) and norm(s.targets[0]) == "self._serializer"]
-            des = [norm(s.value) for b in body for s in ast.walk(b) if isinstance(s, ast.Assign) and norm(s.targets[0]) == "self._deserializer"]
+            if isinstance(s, ast.If) and isinstance(s.test, ast.Compare) and isinstance(s.test.left, ast.Name) and len(s.test.ops) == 1 and isinstance(s.test.ops[0], ast.Eq) \
+                    and isinstance(s.test.comparators[0], ast.Constant) and binds(s.body, "self._serializer"):
+                branches.append((s.test.comparators[0].value, s.body, s.test.left.id))
+        chk.require(len(branches) >= 2 and len({v for _, _, v in branches}) == 1, f"{cname}.__init__: version branches not found")
+        vvar = branches[0][2]
+        for ver, body, _ in branches:
+            ser = binds(body, "self._serializer")
+            des = binds(body, "self._deserializer")
             want = (f"_serialize_{kind}_v{ver}", f"_deserialize_{kind}_v{ver}")
             chk.decide((ser, des) == ([want[0]], [want[1]]), "C01.R5", f"{init.key}:v{ver}-pair", init.where(body[0]),
                        f"{want[0]} / {want[1]}", f"version {ver} branch of {cname} assigns serializer {ser} and deserializer {des}; expected {want}")
@@ -477,25 +520,42 @@ def r5_library(chk):
                 chk.decide(ok, "C01.R5", f"{LIB}:{cname}:import:{fn}", init.where(), f"{fn} resolves to {IO}",
                            f"{fn} in library.py does not resolve to {IO}")
         # the codec version must be a function of the file alone
-        v1 = [s_ for s_ in walk_no_nested(init.node) if isinstance(s_, ast.Assign) and norm(s_.targets[0]) == "_v" and norm(s_.value) == "1"]
-        chk.require(len(v1) == 1, f"{cname}.__init__: `_v = 1` not found")
+        v1 = [s_ for s_ in walk_no_nested(init.node) if isinstance(s_, ast.Assign) and norm(s_.targets[0]) == vvar and norm(s_.value) == "1"]
+        chk.require(len(v1) >= 1, f"{cname}.__init__: `{vvar} = 1` not found")
+
+        def is_module_constant(nm):
+            try:
+                prog.const_eval(init.module, ast.Name(nm, ast.Load()))
+                return True
+            except AnalysisError:
+                return False
+
         foreign = set()
         for g in walk_no_nested(init.node):
-            if isinstance(g, ast.If) and any(x is v1[0] for x in ast.walk(g)):
-                foreign |= names_in(g.test) - {"path", "Path", "header", "_v", "os", "f"}
+            if isinstance(g, ast.If) and any(x is v for v in v1 for x in ast.walk(g)):
+                foreign |= {n for n in names_in(g.test) - {"path", "Path", "header", vvar, "os", "f"} if not is_module_constant(n)}
         chk.decide(not foreign, "C01.R5", f"{init.key}:version-from-file-only", init.where(v1[0]),
                    "the legacy codec is selected from the file's own header and nothing else",
                    f"the choice of the v1 codec also depends on {sorted(foreign)}: the same legacy file gets different codecs depending on how it is opened, "
                    "so what one handle writes another cannot read")
         # version selection by magic
-        magic = [c for c in ast.walk(init.node) if isinstance(c, ast.Constant) and c.value == b"ML10Library"]
-        chk.decide(len(magic) == 1, "C01.R5", f"{init.key}:v1-magic", init.where(), "legacy codec chosen by file magic ML10Library",
+        magic = []
+        for c in ast.walk(init.node):
+            if isinstance(c, ast.Call) and isinstance(c.func, ast.Attribute) and c.func.attr == "startswith" and len(c.args) == 1:
+                try:
+                    if prog.const_eval(init.module, c.args[0]) == b"ML10Library":
+                        magic.append(c)
+                except AnalysisError:
+                    pass
+        chk.decide(len(magic) >= 1, "C01.R5", f"{init.key}:v1-magic", init.where(), "legacy codec chosen by file magic ML10Library",
                    "the legacy magic ML10Library is no longer tested")
         e, d = prog.method(ci, enc), prog.method(ci, dec)
         chk.require(e is not None and d is not None, f"{cname} encoder/decoder vanished")
         chk.analysed(e, d)
-        er = [s for s in ast.walk(e.node) if isinstance(s, ast.Return)]
-        dr = [s for s in ast.walk(d.node) if isinstance(s, ast.Return)]
+        from ..canon import Env
+
+        er = [ast.Return(Env(e.node).expand(s.value)) for s in ast.walk(e.node) if isinstance(s, ast.Return) and s.value is not None]
+        dr = [ast.Return(Env(d.node).expand(s.value)) for s in ast.walk(d.node) if isinstance(s, ast.Return) and s.value is not None]
         p = e.params()[1]
         oke = len(er) == 1 and isinstance(er[0].value, ast.Call) and call_name(er[0].value) == "msgpack.dumps" and norm(er[0].value.args[0]) == f"self._serializer({p})"
         chk.decide(oke, "C01.R5", f"{e.key}:encoder", e.where(), "msgpack.dumps(self._serializer(obj))",
